@@ -571,6 +571,8 @@ func runC13(c *hx.Ctx) {
 		o.syslog(n, s)
 		c.Stat("scenarios", 1)
 	}
+	staggeredContenders(o, c)
+	takeoverDuringDequeue(o, c)
 	blockedTakeover(o, c)
 	// session handover: the persistent session passes to the newcomer without loss or duplication
 	for _, w := range []int{1, 3} {
@@ -624,6 +626,101 @@ func runC13(c *hx.Ctx) {
 		o.syslog(n, s)
 		c.Stat("scenarios", 1)
 	}
+}
+
+// four connections with one id arrive staggered while the Terminate of the first two is held back, so
+// that each newcomer reaches Setup while the previous takeover is still in progress: in the end exactly
+// one of them may be live
+func staggeredContenders(o *out, c *hx.Ctx) {
+	n := o.scn("c13 staggered contenders with held-back Terminate")
+	s := startSys(3, 100)
+	waitSetups := func(k int) {
+		deadline := time.Now().Add(2 * time.Second)
+		for s.backend.setupCalls("stag") < k && time.Now().Before(deadline) {
+			time.Sleep(time.Millisecond)
+		}
+		time.Sleep(40 * time.Millisecond) // let it get as far as it can (blocked in Setup or on the setup lock)
+	}
+	relA := s.backend.holdTerminate("stag", 1)
+	relB := s.backend.holdTerminate("stag", 2)
+	a, _ := dialPeer("A", s.port, true)
+	a.connect("stag", true, nil)
+	type res struct {
+		p   *peer
+		ack *packet.Connack
+	}
+	start := func(name string) chan res {
+		ch := make(chan res, 1)
+		go func() {
+			p, err := dialPeer(name, s.port, true)
+			if err != nil {
+				ch <- res{}
+				return
+			}
+			ch <- res{p, p.connect("stag", true, nil)}
+		}()
+		return ch
+	}
+	chB := start("B")
+	waitSetups(2) // B is inside Setup, waiting for A, whose Terminate is held
+	chC := start("C")
+	waitSetups(3) // C waits for the setup lock
+	relA()        // A terminates: B completes
+	rB := <-chB
+	time.Sleep(40 * time.Millisecond) // C closes B and waits for it (B's Terminate is held)
+	chD := start("D")
+	waitSetups(4)
+	relB()
+	rC := <-chC
+	rD := <-chD
+	time.Sleep(60 * time.Millisecond)
+	open := []string{}
+	for _, x := range []struct {
+		name string
+		p    *peer
+	}{{"A", a}, {"B", rB.p}, {"C", rC.p}, {"D", rD.p}} {
+		if x.p != nil && !x.p.isClosed(30*time.Millisecond) {
+			open = append(open, x.name)
+		}
+	}
+	o.direct("exactly_one", n, len(open) == 1, fmt.Sprintf("connections with the id still open after four staggered attempts: %v", open))
+	for _, x := range []*peer{a, rB.p, rC.p, rD.p} {
+		if x != nil {
+			x.close()
+		}
+	}
+	bad := s.backend.lifecycle(3 * time.Second)
+	o.direct("lifecycle", n, len(bad) == 0, joinLines(bad))
+	s.stop()
+	o.syslog(n, s)
+	c.Stat("scenarios", 1)
+}
+
+// the takeover lands between the old connection's Dequeue returning a message and the message being
+// saved in the session: the message must not be lost, the newcomer gets it
+func takeoverDuringDequeue(o *out, c *hx.Ctx) {
+	n := o.scn("c13 takeover between Dequeue and SavePacket of the old connection")
+	s := startSys(3, 100)
+	s.backend.holdDequeueUntilClosing("deq", 1)
+	old, _ := dialPeer("old", s.port, true)
+	old.connect("deq", false, nil)
+	old.subscribe(1, "t", 1)
+	feeder, _ := dialPeer("feed", s.port, true)
+	feeder.connect("feed", true, nil)
+	feeder.send(&packet.Publish{ID: 1, Message: packet.Message{Topic: "t", Payload: payload(0, 1, 0), QOS: 1}})
+	feeder.await(func(g packet.Generic) bool { _, ok := g.(*packet.Puback); return ok }, time.Second)
+	time.Sleep(20 * time.Millisecond) // the old connection's dequeuer now holds the message at the gate
+	np, _ := dialPeer("new", s.port, true)
+	ack := np.connect("deq", false, nil)
+	got := np.await(func(g packet.Generic) bool { _, ok := g.(*packet.Publish); return ok }, 2*time.Second)
+	o.direct("takeover_keeps_message", n, ack != nil && got != nil,
+		fmt.Sprintf("newcomer connack=%v; the QoS 1 message accepted before the takeover reached the newcomer: %v", ack != nil, got != nil))
+	old.close()
+	np.close()
+	feeder.close()
+	s.stop()
+	o.syslog(n, s)
+	c.Stat("scenarios", 1)
 }
 
 // the witness of the open known finding: the displaced connection is blocked in a carrier
